@@ -410,6 +410,16 @@ static void sim_errfunc(cfg_t *cfg, const char *fmt, va_list ap)
 		E->cur->diags.push_back(d);
 }
 
+// a second error function: what it receives is marked, so that a diagnostic delivered to a function the
+// application has replaced meanwhile shows
+static void sim_errfunc2(cfg_t *cfg, const char *fmt, va_list ap)
+{
+	size_t before = (E && E->cur) ? E->cur->diags.size() : 0;
+	sim_errfunc(cfg, fmt, ap);
+	if (E && E->cur && E->cur->diags.size() > before)
+		E->cur->diags.back().msg = "[fn2] " + E->cur->diags.back().msg;
+}
+
 // print filter party: hides about half of the options, chosen by name
 static int sim_printfilter(cfg_t *cfg, cfg_opt_t *opt)
 {
@@ -1129,6 +1139,10 @@ static void run_op(int client, const json &op, OpResult &r)
 			LIBCALL(op, r.ret = cfg_opt_setcomment(cfg_getopt(cfg, name.c_str()), (char *)t.c_str()));
 		else
 			LIBCALL(op, r.ret = cfg_setcomment(cfg, name.c_str(), (char *)t.c_str()));
+	} else if (kind == "seterrfn") {
+		// the application replaces the error function of the context ("fn": 1 or 2)
+		LIBCALL(op, cfg_set_error_function(cfg, op.value("fn", 2) == 2 ? sim_errfunc2 : sim_errfunc));
+		r.ret = 0;
 	} else if (kind == "addpath") {
 		std::string d = bytes_of(op["dir"]);
 		LIBCALL(op, r.ret = cfg_add_searchpath(cfg, d.c_str()));
